@@ -278,7 +278,7 @@ def _worker_init():
     try:
         import resource
         lim = int(os.environ.get('VERIF_AS_LIMIT_GB', '2')) * 2 ** 30
-        resource.setrlimit(resource.RLIMIT_AS, (lim, lim))    # a run-away allocation becomes a MemoryError, not a hang
+        resource.setrlimit(resource.RLIMIT_AS, (lim, resource.getrlimit(resource.RLIMIT_AS)[1]))   # soft limit only    # a run-away allocation becomes a MemoryError, not a hang
     except Exception:
         pass
     setup_lentil()
